@@ -39,7 +39,16 @@ CtlNets == {"tcp4", "tcp6", "tcp", "udp4"}
 Lo8 == C4(127, 0, 0, 0, 8)     Lo16 == C4(127, 1, 0, 0, 16)
 E2eRanges == {Any4, Lo8, Lo16, BadEntry}
 E2eAddrs == {A4(127, 0, 255, 255), A4(127, 1, 0, 0), A4(127, 1, 2, 3), A4(127, 1, 255, 255), A4(127, 2, 0, 0)}
-Reaches == {"literal", "name", "dnscache"}
+\* a real connection needs a local address: 127.0.0.0/8 for IPv4, ::1 for IPv6
+One6 == [bad |-> 0, fam |-> 6, oct |-> Zeros(15) \o <<1>>, len |-> 128]        \* ::1/128
+E2eRanges6 == {Any6, One6, ULA, BadEntry}                                      \* ::1 lies in the first two only
+Loop6 == [fam |-> 6, oct |-> Zeros(15) \o <<1>>, mapped |-> FALSE]
+\* how the destination is reached = dial path x kind of name.  The dial path is the plain dialer of the
+\* destination tripper or the DNS-cache dialer (WithDNSCache); the name is a DNS name resolving to the address,
+\* an IPv4 literal, a bracketed IPv4-mapped IPv6 literal, a bracketed IPv6 literal.  The expectation is the
+\* same whatever the name kind and the dial path.
+Paths == {"plain", "dnscache"}
+Kinds == {"name", "v4", "mapped", "v6"}
 
 \* oracle sanity: the hand-picked addresses really are the edges they are meant to be
 ASSUME /\ InCIDR(A4(10, 1, 0, 0), Ten16) /\ InCIDR(A4(10, 1, 255, 255), Ten16)
@@ -53,6 +62,7 @@ ASSUME /\ InCIDR(A4(10, 1, 0, 0), Ten16) /\ InCIDR(A4(10, 1, 255, 255), Ten16)
        /\ InCIDR(A4(127, 1, 0, 0), Lo16) /\ InCIDR(A4(127, 1, 255, 255), Lo16)
        /\ ~InCIDR(A4(127, 0, 255, 255), Lo16) /\ ~InCIDR(A4(127, 2, 0, 0), Lo16)
        /\ \A a \in E2eAddrs : InCIDR(a, Lo8)
+       /\ InCIDR(Loop6, One6) /\ InCIDR(Loop6, Any6) /\ ~InCIDR(Loop6, ULA) /\ ~InCIDR(Loop6, Any4)
        /\ \A a \in CtlAddrs \cup E2eAddrs : ~InCIDR(a, BadEntry)
 
 SeqsUpTo(U, n) == UNION {[1..k -> U] : k \in 0..n}
@@ -76,12 +86,17 @@ NextAddr(a) == CASE a = A4(127, 0, 255, 255) -> A4(127, 1, 0, 0) [] a = A4(127, 
                  [] a = A4(127, 1, 2, 3) -> A4(127, 0, 255, 255) [] a = A4(127, 1, 255, 255) -> A4(127, 1, 2, 3)
                  [] OTHER -> A4(127, 1, 255, 255)
 
+AsMapped(a) == [a EXCEPT !.mapped = TRUE]
 InitE2e ==
-    \E a \in E2eAddrs, r \in Reaches :
-    \E al \in SeqsUpTo(E2eRanges, MaxAllow), dn \in SeqsUpTo(E2eRanges, MaxDeny) :
-    \E x \in (IF r = "literal" THEN {<<>>} ELSE {<<>>, <<NextAddr(a)>>}) :
-       /\ (r = "dnscache" => Configured(al, dn))   \* the property is silent about a DNS cache without lists
-       /\ allow = al /\ deny = dn /\ addr = a /\ net = "tcp4" /\ reach = r /\ extra = x
+    \E path \in Paths, kind \in Kinds :
+    \E v6addr \in (IF kind = "name" THEN BOOLEAN ELSE {kind = "v6"}) :        \* a name may have an A or an AAAA record
+    \E a \in (IF v6addr THEN {Loop6} ELSE IF kind = "mapped" THEN {AsMapped(x) : x \in E2eAddrs} ELSE E2eAddrs) :
+    \E al \in SeqsUpTo(IF v6addr THEN E2eRanges6 ELSE E2eRanges, MaxAllow),
+       dn \in SeqsUpTo(IF v6addr THEN E2eRanges6 ELSE E2eRanges, MaxDeny) :
+    \E x \in (IF kind = "name" /\ ~v6addr THEN {<<>>, <<NextAddr(a)>>} ELSE {<<>>}) :   \* several A records
+       /\ (path = "dnscache" => Configured(al, dn))   \* the property is silent about a DNS cache without lists
+       /\ allow = al /\ deny = dn /\ addr = a /\ net = (IF v6addr THEN "tcp6" ELSE "tcp4")
+       /\ reach = path \o ":" \o kind /\ extra = x
 
 Init == /\ phase = "start" /\ verdict = "none" /\ xverdict = <<>>
         /\ IF Family = "e2e" THEN InitE2e ELSE InitCtl
